@@ -377,6 +377,8 @@ def check_names_bound(prog: Program, res, rule: str) -> None:
         for f in funcs:
             for x, place, val, pa, pb in crossed_roles(f):
                 res.violation(rule, f, x, f"`{place}` receives `{unparse(val)[:60]}` in {f.short}: what is named after `{pb}` is handed on as `{pa}` (and nothing named after `{pa}` is in it) — the two roles are swapped / one is used twice, silently", construct=f"{place}={unparse(val)[:40]}", key_extra=f"crossed-roles-{place}")
+            for alloc, store in integer_buffers(f):
+                res.violation(rule, f, alloc, f"`{unparse(alloc)[:70]}` allocates an integer-typed buffer and `{unparse(store)[:60]}` stores computed values into it: numpy truncates floating-point values (weighted counts, sums of weights, histograms of weighted objects) on the store, silently — the result is right only for integer-valued data", key_extra=f"integer-buffer-{alloc.targets[0].id}")
             for x, txt, sib in duplicated_siblings(f):
                 res.violation(rule, f, x, f"`{txt[:50]}` appears twice in `{unparse(x)[:70]}` of {f.short} although `{sib}` is at hand: one of the two was meant to be the sibling — a check that tests one side twice, a pair built from one member", construct=unparse(x)[:60], key_extra=f"duplicated-sibling-{txt[:30]}")
             for q in ignored_parameters(prog, f):
@@ -491,6 +493,9 @@ def _thin(e: ast.AST) -> bool:
         return _thin(e.args[0])
     if isinstance(e, ast.Call) and isinstance(e.func, ast.Attribute) and e.func.attr in ("tolist", "squeeze", "copy", "item", "ravel", "flatten") and not e.args and not e.keywords:
         return _thin(e.func.value)
+    # layout-only numpy wrappers of one array
+    if isinstance(e, ast.Call) and (dotted(e.func) or "").split(".")[0] in ("np", "numpy") and (dotted(e.func) or "").split(".")[-1] in ("transpose", "asarray", "array", "squeeze", "atleast_1d", "atleast_2d", "ascontiguousarray", "copy") and len(e.args) == 1 and not e.keywords:
+        return _thin(e.args[0])
     return False
 
 
@@ -532,6 +537,8 @@ def crossed_roles(fi: FuncInfo) -> list:
                     vt |= _role_tokens(y.id)
                 elif isinstance(y, ast.Attribute):
                     vt |= _role_tokens(y.attr)
+                elif isinstance(y, ast.Subscript) and isinstance(y.slice, ast.Constant) and isinstance(y.slice.value, str) and y.slice.value.isidentifier():
+                    vt |= _role_tokens(y.slice.value)  # source["totals1"]
             pt = _role_tokens(place)
             for fam in _FAMILIES:
                 a, b = pt & fam, vt & fam
@@ -675,4 +682,47 @@ def dropped_companions(prog: Program, fi: FuncInfo) -> list:
             has = opt in fi.param_names() or any((isinstance(y, ast.Name) and y.id == opt) or (isinstance(y, ast.Attribute) and y.attr == opt) or (isinstance(y, ast.Constant) and y.value == opt) for y in ast.walk(fi.node))
             if opt not in bound and (has or opt in ("weights", "redshifts")):
                 out.append((c, callees[0].short, opt))
+    return out
+
+
+# ----------------------------------------------------------------------------- integer buffers
+
+_INT_DTYPES = {"int", "int8", "int16", "int32", "int64", "intp", "int_", "uint8", "uint16", "uint32", "uint64", "bool", "bool_", "short", "intc", "longlong", "byte", "ubyte"}
+
+
+def _is_int_dtype(e) -> bool:
+    if isinstance(e, ast.Constant) and isinstance(e.value, str):
+        return e.value.lstrip("<>=|")[:1] in ("i", "u", "b", "?") and not e.value.startswith("f")
+    d = dotted(e)
+    if d is None:
+        return False
+    parts = d.split(".")
+    return (len(parts) == 1 and parts[0] in ("int", "bool")) or (len(parts) == 2 and parts[0] in ("np", "numpy") and parts[1] in _INT_DTYPES)
+
+
+def integer_buffers(fi: FuncInfo) -> list:
+    """[(allocation, store)]: an array allocated with an explicit integer / boolean element type (np.empty / zeros /
+    full / ones(…, dtype=int…)) into which the function then stores computed values by subscript assignment — weighted
+    counts, sums of weights and histograms are floating-point in this package, numpy truncates them silently on the
+    store.  Stores of integer literals, lengths and loop indices are not judged"""
+    out = []
+    allocs = {}
+    for x in walk_no_nested(fi.node):
+        if isinstance(x, ast.Assign) and len(x.targets) == 1 and isinstance(x.targets[0], ast.Name) and isinstance(x.value, ast.Call):
+            fn = (dotted(x.value.func) or "").split(".")
+            if fn[0] in ("np", "numpy") and fn[-1] in ("empty", "zeros", "ones", "full", "empty_like", "zeros_like", "ones_like", "full_like"):
+                dt = next((k.value for k in x.value.keywords if k.arg == "dtype"), None)
+                if dt is not None and _is_int_dtype(dt):
+                    allocs[x.targets[0].id] = x
+    if not allocs:
+        return out
+    for x in walk_no_nested(fi.node):
+        if isinstance(x, (ast.Assign, ast.AugAssign)):
+            tgts = x.targets if isinstance(x, ast.Assign) else [x.target]
+            for t in tgts:
+                if isinstance(t, ast.Subscript) and isinstance(t.value, ast.Name) and t.value.id in allocs:
+                    v = x.value
+                    trivially_int = isinstance(v, ast.Constant) and isinstance(v.value, (int, bool)) or (isinstance(v, ast.Call) and isinstance(v.func, ast.Name) and v.func.id in ("len", "int", "bool", "range"))
+                    if not trivially_int:
+                        out.append((allocs[t.value.id], x))
     return out
